@@ -366,7 +366,7 @@ def judge(ctx, binary, scripts, traces, tag, seen, flags):
         for kf, trunc in flags:
             e2 = [dict(ev[0], kf=kf, trunc=trunc, persec=PERSEC)] + ev[1:]
             try:
-                acc, rej, _ = validate_history_trace(ctx, SPEC, "CacheITrace", e2, tag="%s-i%d-%d%d" % (tag, i, kf, trunc), max_rounds=1, timeout=400, deque=True)
+                acc, rej, _ = validate_history_trace(ctx, SPEC, "CacheITrace", e2, tag="%s-i%d-%d%d" % (tag, i, kf, trunc), max_rounds=1, timeout=400 if ctx.thorough else 60, deque=True)
             except Broken:               # the search ran out of time or memory: no statement about this recording
                 return "inconclusive"
             if not rej:
